@@ -217,6 +217,9 @@ func (g *UndirectedGraph) RemoveLine(fid, tid, id int64) {
 		return
 	}
 
+	if _, ok := g.lines[fid][tid][id]; !ok {
+		return
+	}
 	delete(g.lines[fid][tid], id)
 	if len(g.lines[fid][tid]) == 0 {
 		delete(g.lines[fid], tid)
